@@ -172,6 +172,13 @@ func process1ListMerge(obj []any, self []any, mergeFrom *Document, mergeFromDocs
 		return nil, fmt.Errorf("$merge: %v: %w", m, ErrCircularRef)
 	}
 
+	// Merge a private copy: the entries are evaluated in place afterwards,
+	// which must not edit the list they were taken from.
+	in, err = deepClone(in)
+	if err != nil {
+		return nil, err
+	}
+
 	return mergeList(obj, in)
 }
 
